@@ -1,4 +1,4 @@
-"""C10 -- a composite change is all-or-nothing (structural clauses R10.1-R10.11)."""
+"""C10 -- a composite change is all-or-nothing (structural clauses R10.1-R10.14)."""
 from __future__ import annotations
 
 import ast
@@ -19,6 +19,7 @@ EXPLANATION = (
     "are not mutated on a path that can still fail in the same iteration; R10.6 current_change is reset on every "
     "exit. Decides these structural necessary conditions, not tree equality after failure."
 )
+EXPLANATION += " R10.14: inside a rollback handler the inverse operation is taken of the completed sub-changes only (elements of the compensation loop), never of the failing one."
 ASSUMPTIONS = [
     "fault model: only statements containing a call/raise/assert may raise",
     "atomicity of a single fscommands primitive is outside the model",
@@ -336,6 +337,17 @@ def _check_main(ctx, res) -> None:
                     "a path leaves the rollback handler without raising: the failure is swallowed",
                     function=f.qualname)
             _breadth_rule(idx, res, name, f, h, raised)
+            # R10.14 what is compensated is exactly what was completed: inside the handler the inverse operation is taken of elements
+            # of the compensation loop only -- never of another element picked from the list of sub-changes (the one that just FAILED
+            # is not among the completed ones: it left nothing, or what it left is its own business to take back before it raises)
+            tgt = hloop.target.id if isinstance(hloop, ast.For) and isinstance(hloop.target, ast.Name) else None
+            stray = [x for s_ in h.body for x in ast.walk(s_) if isinstance(x, ast.Attribute) and x.attr in ("do", "undo")
+                     and not (isinstance(x.value, ast.Name) and x.value.id in (tgt, "self"))]
+            res.add("R10.14", name, not stray, f"{f.unit.rel}:{(stray[0] if stray else h).lineno}",
+                    "the handler takes the inverse of the completed sub-changes only" if not stray else
+                    f"the handler also applies `{ast.unparse(stray[0])[:70]}` -- the inverse of a sub-change that is not one of the completed ones: when the failing step is a "
+                    "creation refused because the file EXISTS, its undo removes the file that was there before; for a nested composite, which has already rolled itself back, "
+                    "the steps are undone a second time", function=f.qualname)
             # R10.11 the compensating call is the INVERSE of the call being rolled back (do <-> undo)
             INV = {"do": "undo", "undo": "do"}
             body_calls = {c.func.attr for c in calls_in(loop) if isinstance(c.func, ast.Attribute) and c.func.attr in INV
